@@ -14,6 +14,10 @@ package main
 //   C18 R <kind> <strategy> <seed> # <event trace>
 //       concurrent Emit/EmitSync/AddSink/GetStats/TriggerWindow/Stop from a seeded plan; events sb:j sr:j:ms kb:f ke yb:j ye:j:r
 //       to gr:base:final (see Spec/LifecycleSpec.v).
+//   C18 P <strategy> <workers> <poolcap> <rows> # <event trace>
+//       saturated sink pool: every worker is inside a (harness-gated) sink and the task queue is full, so further results
+//       take submitSinkTask's overflow branch; Stop is called while these invocations are in progress and they are released
+//       one by one in the order in which they began. Same events and monitor as R.
 //   C18 L # <event trace>   two overlapping Stop calls (documents F18c).
 
 import (
@@ -556,6 +560,95 @@ func runC18Random(kind, strat string, seed uint64) (string, error) {
 	return fmt.Sprintf("C18 R %s %s %d # %s", kind, strat, seed, strings.Join(t.ev, " ")), nil
 }
 
+// c18Gate lets the harness decide when each invocation of a sink returns.
+type c18Gate struct {
+	mu      sync.Mutex
+	entered []chan struct{}
+	open    bool
+}
+
+func (g *c18Gate) enter() chan struct{} {
+	ch := make(chan struct{})
+	g.mu.Lock()
+	if g.open {
+		close(ch)
+	} else {
+		g.entered = append(g.entered, ch)
+	}
+	g.mu.Unlock()
+	return ch
+}
+
+// releaseInOrder lets the invocations return one by one in the order in which they began (also those that begin while
+// it is at work), then opens the gate for good.
+func (g *c18Gate) releaseInOrder(gap time.Duration) {
+	for i := 0; ; i++ {
+		g.mu.Lock()
+		if i >= len(g.entered) {
+			g.open = true
+			g.mu.Unlock()
+			return
+		}
+		ch := g.entered[i]
+		g.mu.Unlock()
+		close(ch)
+		time.Sleep(gap)
+	}
+}
+
+// saturated sink pool + Stop while the overflow invocations are still running
+func runC18Saturated(rng *RNG, strat string) (string, error) {
+	workers, poolCap := 1+rng.Intn(2), 1+rng.Intn(2)
+	rows := workers + poolCap + 1 + rng.Intn(3)
+	base := runtime.NumGoroutine()
+	s, err := c18New("direct", strat, 16, poolCap, workers, 0)
+	if err != nil {
+		return "", err
+	}
+	t := newC18Trace()
+	g := &c18Gate{}
+	t.cnt = append(t.cnt, 0)
+	gated := func(r []map[string]any) {
+		t.sinkBegin(0)
+		defer t.sinkEnd()
+		<-g.enter()
+	}
+	s.AddSink(gated)
+	if rng.Bool() {
+		s.AddSink(t.mkSink(s, "px"[rng.Intn(2)], 0))
+	}
+	if rng.Bool() {
+		t.addSink(s, true, 'p', 0)
+	}
+	for i := 0; i < rows; i++ {
+		s.Emit(c18Row(i, i))
+		time.Sleep(3 * time.Millisecond)
+	}
+	// wait until no further invocation begins: workers blocked, queue full, overflow invocation(s) blocked
+	last, stable := int64(-1), 0
+	for i := 0; i < 200 && stable < 6; i++ {
+		time.Sleep(3 * time.Millisecond)
+		if b := atomic.LoadInt64(&t.begins); b == last {
+			stable++
+		} else {
+			last, stable = b, 0
+		}
+	}
+	var wg sync.WaitGroup
+	wg.Add(1)
+	go func() { defer wg.Done(); t.stop(s, 1) }()
+	time.Sleep(10 * time.Millisecond)
+	g.releaseInOrder(time.Duration(8+rng.Intn(8)) * time.Millisecond)
+	if !callWithin(8*time.Second, wg.Wait) {
+		t.add("to")
+	}
+	time.Sleep(20 * time.Millisecond) // invocations that outlive Stop show up as ke (or kb) after sr
+	t.add(fmt.Sprintf("gr:%d:%d", base, waitGoroutines(base, 2*time.Second)))
+	t.mu.Lock()
+	defer t.mu.Unlock()
+	return fmt.Sprintf("C18 P %s %d %d %d # %s", strat, workers, poolCap, rows, strings.Join(t.ev, " ")), nil
+}
+
 // two overlapping Stop calls: the second returns at once although the first is still waiting for a sink
 func runC18Loser() (string, error) {
 	s, err := c18New("direct", "drop", 16, 4, 2, 0)
@@ -697,6 +790,28 @@ func runC18(tier string, seed uint64, o *Out) error {
 					o.Count("aborted_after_stuck_cases")
 					return nil
 				}
+			}
+		}
+	}
+	// (3b) saturated sink pool, Stop during the overflow invocations
+	nSat := 4
+	if tier == "thorough" {
+		nSat = 20
+	}
+	for _, st := range strategies {
+		for i := 0; i < nSat; i++ {
+			l, err := runC18Saturated(rng, st)
+			if err != nil {
+				return err
+			}
+			o.Line("%s", l)
+			o.Count("saturated_pool/" + st)
+			if c18IsStuck(l) {
+				stuck++
+			}
+			if stuck >= c18MaxStuck {
+				o.Count("aborted_after_stuck_cases")
+				return nil
 			}
 		}
 	}
